@@ -51,6 +51,8 @@ type Cfg struct {
 	// Prior: another ownership (zz.>) was configured first; the configuration under test -
 	// explicit lists, or nil/nil to go back to the default - is set by a later call.
 	Prior bool `json:"prior,omitempty"`
+	// EarlyReset: ResetAll is called on the new service before any handler is registered.
+	EarlyReset bool `json:"earlyReset,omitempty"`
 }
 
 // HSpec is one handler of a split registration.
@@ -98,6 +100,10 @@ func build(c Cfg) *res.Service {
 	s := res.NewService(c.Name)
 	s.SetLogger(nil)
 	s.SetWorkerCount(2)
+	if c.EarlyReset {
+		// refused (the service is not started) and without any effect on what is owned later
+		s.ResetAll()
+	}
 	if len(c.Split) == 0 {
 		s.Handle(">", kindOpts(c.Kinds)...)
 	}
@@ -382,7 +388,7 @@ func genPattern(name string) *rapid.Generator[string] {
 			k := rapid.IntRange(0, 9).Draw(t, "tk")
 			switch {
 			case k < 5:
-				toks = append(toks, rapid.SampledFrom([]string{"a", "b", "ab", "a", "b", "ab", "q\"", "\\"}).Draw(t, "lit")) // "a" is a string prefix of "ab"
+				toks = append(toks, rapid.SampledFrom([]string{"a", "b", "ab", "a", "b", "ab", "q\"", "\\", "budget", "get"}).Draw(t, "lit")) // "a" is a string prefix of "ab"
 			case k < 8:
 				toks = append(toks, "*")
 			default:
@@ -399,7 +405,8 @@ func genPattern(name string) *rapid.Generator[string] {
 
 func genCfg() *rapid.Generator[Cfg] {
 	return rapid.Custom(func(t *rapid.T) Cfg {
-		c := Cfg{Name: rapid.SampledFrom([]string{"", "svc", "svc", "a.b", "s\"q", "b\\c"}).Draw(t, "name")}
+		c := Cfg{Name: rapid.SampledFrom([]string{"", "svc", "svc", "a.b", "s\"q", "b\\c", "widget", "get.call"}).Draw(t, "name")}
+		c.EarlyReset = rapid.IntRange(0, 4).Draw(t, "earlyReset") == 0
 		c.Prior = rapid.IntRange(0, 3).Draw(t, "prior") == 0
 		c.Explicit = rapid.IntRange(0, 2).Draw(t, "explicit") > 0
 		if c.Explicit {
